@@ -9,3 +9,8 @@ META = {
     'assumptions': ['behaviour of instance bodies, termination of specialisation over whole programs, spec_name_for (external pretty crate) are outside the claim'],
     'trusted_base': ['mirsym MIR interpreter', 'library models listed per obligation', 'z3'],
 }
+
+_c07_obl9 = obligations
+def obligations():
+    from props import mono_ob
+    return _c07_obl9() + mono_ob.obligations_instance_fields()
